@@ -1700,6 +1700,66 @@ func dynValueField(o *hx.Out) {
 			o.Fail("C02.dyn-value-field", "struct{D dynbt.Value} holding %s: out=%s err=%v came back as %s", hx.Hex(want), hx.Hex(bs), err, hx.Hex(got))
 		}
 	}
+	// the same carrier held by value in slices, arrays, []any and maps: a list the carrier decoded must be written
+	// again, whatever the tag of its first element (byte / int / long elements must not turn it into a typed array)
+	elems := []*dynbt.Value{dynbt.NewByte(-3), dynbt.NewShort(9), dynbt.NewInt(7), dynbt.NewLong(1 << 40), dynbt.NewString("A"),
+		dynbt.NewList(dynbt.NewByte(1)), dynbt.NewCompound()}
+	for _, d := range elems {
+		one, _, _ := encode(d, false, "")
+		holders := []struct {
+			name string
+			v    any
+			back func(bs []byte) []*dynbt.Value
+		}{
+			{"[]dynbt.Value", []dynbt.Value{*d, *d}, func(bs []byte) []*dynbt.Value {
+				var g []dynbt.Value
+				if _, _, derr, _ := decode(bs, false, &g); derr != nil {
+					return nil
+				}
+				r := []*dynbt.Value{}
+				for i := range g {
+					r = append(r, &g[i])
+				}
+				return r
+			}},
+			{"[2]dynbt.Value", [2]dynbt.Value{*d, *d}, func(bs []byte) []*dynbt.Value {
+				var g [2]dynbt.Value
+				if _, _, derr, _ := decode(bs, false, &g); derr != nil {
+					return nil
+				}
+				return []*dynbt.Value{&g[0], &g[1]}
+			}},
+			{"map[string]dynbt.Value", map[string]dynbt.Value{"k": *d}, func(bs []byte) []*dynbt.Value {
+				var g map[string]dynbt.Value
+				if _, _, derr, _ := decode(bs, false, &g); derr != nil || len(g) != 1 {
+					return nil
+				}
+				x := g["k"]
+				return []*dynbt.Value{&x}
+			}},
+		}
+		for _, h := range holders {
+			bs, err, pan := encode(h.v, false, "")
+			o.Eval("dyn-value-held", true, h.name+" of "+hx.Hex(one))
+			if pan != "" {
+				o.Fail("C02.panic.encode", "%s of %s: panic=%s", h.name, hx.Hex(one), pan)
+				continue
+			}
+			if err != nil {
+				o.Fail("C02.carrier.dyn.by-value", "%s of %s: Marshal refuses a value the carrier holds: %v", h.name, hx.Hex(one), err)
+				continue
+			}
+			got := h.back(bs)
+			ok := got != nil
+			for _, g := range got {
+				b, _, _ := encode(g, false, "")
+				ok = ok && bytes.Equal(b, one)
+			}
+			if !ok {
+				o.Fail("C02.carrier.dyn.by-value", "%s of %s: out=%s does not come back as the same values", h.name, hx.Hex(one), hx.Hex(bs))
+			}
+		}
+	}
 }
 
 // ---------------------------------------------------------------- embedded structs compared with the model (typeFields)
